@@ -24,7 +24,7 @@ ASSUMPTIONS = ['NLA: the site is the reference coordinate of the C of CATG; CHIC
                'cycle-shifted reads are simulated without soft clip']
 MIN_NONTRIVIAL = {'quick': 3000, 'thorough': 150000}
 REQUIRED_MONITORS = ['obs:nla_fragments', 'obs:chic_fragments', 'obs:cycle_shift', 'obs:motif_broken', 'obs:clipped', 'mirror:fragments',
-                     'cli:records_checked', 'obs:invert_strand', 'obs:single_end']
+                     'cli:records_checked', 'obs:invert_strand', 'obs:single_end', 'obs:sites_at_contig_ends', 'obs:fragments_with_site_0']
 SHARD_TIMEOUT = {'quick': 900, 'thorough': 5400}
 
 
@@ -112,6 +112,18 @@ def run_case(case):
             if gen.get(name)[pos - 6:pos + 10].count('CATG'):
                 continue
             gen.plant(name, pos)
+    # cut sites on the very first / last bases of a contig: coordinate 0 is a coordinate like any other, and the mirror image of a site at 0
+    # is the site at the other end
+    edge_sites = []
+    for name, ln in contigs:
+        if r.random() < 0.6:
+            if method == 'nla':
+                gen.plant(name, 0)
+                gen.plant(name, ln - 4)
+                edge_sites += [(name, 0), (name, ln - 4)]
+            else:
+                edge_sites += [(name, 1), (name, ln - 2)]
+    acc.count('obs:sites_at_contig_ends', len(edge_sites))
     sites = []
     for name, ln in contigs:
         s = gen.get(name)
@@ -123,10 +135,12 @@ def run_case(case):
                 j = s.find('CATG', j + 1)
         else:
             sites += [(name, r.randrange(500, ln - 500)) for _ in range(n_sites)]
-    for name, pos in sites:
+    for name, pos in sites + edge_sites:
         for _ in range(r.randint(1, 4)):
             kind = r.choice(['plain'] * 4 + ['clip', 'clip', 'shift', 'broken', 'single'])
             reverse = r.random() < 0.5
+            if (name, pos) in edge_sites:
+                reverse = pos > 10      # only the strand that points into the contig yields a fragment
             kw = {}
             if kind == 'clip':
                 kw['clip'] = r.randint(1, 6)
@@ -181,6 +195,8 @@ def run_case(case):
                'mirror_observed': {k: str(v) for k, v in mo.items()},
                'reads': [(x['flag'], x['pos'], x['cigar'], x['seq']) for x in recs if F.id_from_name(x['name']) == rid]}
         strand_txt = 'reverse' if t['reverse'] else 'forward'
+        if t['site'] == 0:
+            acc.count('obs:fragments_with_site_0')
         expect_valid = True
         if method == 'nla':
             if kind == 'broken':
